@@ -77,6 +77,15 @@ class LazyList:
                 position.stop,
                 position.step or 1,
             )
+            if (
+                step < 0
+                or (start is not None and start < 0)
+                or (stop is not None and stop < 0)
+            ):
+                # Negative positions and steps count from the end, so
+                # the whole list is needed
+                sliced = self.listify()[start:stop:step]
+                return LazyList(sliced) if step < 0 else sliced
             if stop is None:
 
                 @lazylist
@@ -89,13 +98,9 @@ class LazyList:
                 return infinite_index()
             else:
                 ret = []
-                if step < 0:
-                    return LazyList(
-                        itertools.islice(self.listify(), start, stop, step)
-                    )
-                if stop < 0:
-                    stop = len(self) + stop
                 for i in range(start or 0, stop, step):
+                    if not self.has_ind(i):
+                        break
                     ret.append(self[i])
                 return ret
         else:
